@@ -268,6 +268,11 @@ func (p *Parser) Documents() []*Document {
 // outputDocument returns the output objects generated by the specified
 // document.
 func (p *Parser) outputDocument(doc *Document) ([]any, error) {
+	doc, err := doc.Clone("output")
+	if err != nil {
+		return nil, err
+	}
+
 	docs, err := doc.Process(p.docs)
 	if err != nil {
 		return nil, err
